@@ -319,7 +319,8 @@ def frame_format_sweep(ctx, rng, part, parts):
         check_send(ctx, net, st, bus, cid, data, remote, {"sweep": "send_message", "id": cid})
         ctx.case(("format-sweep", "ext" if cid > 0x7FF else "std"), nontrivial=True)
         if cid % 7 == 0 or cid > 0x7FF:
-            task = net.send_periodic(cid, data, 0.1, remote)
+            no_data = remote and cid % 2 == 0          # a remote request has no data to hand over (node guarding does this)
+            task = net.send_periodic(cid, None if no_data else data, 0.1, remote)
             ctx.count("frames_format_checked")
             judge_msg(ctx, task.msg, cid, data, remote, "send_periodic", {"sweep": "send_periodic", "id": cid})
             if not remote:
@@ -363,12 +364,17 @@ def scanner_sweep(ctx, rng, part, parts):
         if net.scanner.nodes:
             ctx.violation("scanner-lists-extended-id", f"29-bit id {cid:#x} made the scanner list node {net.scanner.nodes}", {"scanner": "ext", "id": cid})
     # random sequences: once each, first-appearance order
-    for _ in range(40):
+    feeder = bus.actor_station("feeder")
+    for k in range(40):
         net.scanner.reset()
         seq = [rng.choice([rng.randint(0, 0x7FF), rng.choice(SERVICES) + rng.randint(0, 12), rng.randint(0x800, 0x1FFFFFFF)]) for _ in range(60)]
         want = []
         for cid in seq:
-            net.notify(cid, bytearray(b"\x00" * 8), 2.0)
+            if k % 2:
+                feeder.send(cid, b"\x00" * 8)           # through the bus and the network's listener (nobody subscribed to most ids)
+                ctx.count("scanner_frames_via_listener")
+            else:
+                net.notify(cid, bytearray(b"\x00" * 8), 2.0)
             if expected_listed(cid) and (cid & 0x7F) not in want:
                 want.append(cid & 0x7F)
         ctx.case(("scanner-sequence",), nontrivial=True)
